@@ -11,7 +11,7 @@ if ! git apply -R --check $out/patch.diff 2>/dev/null; then
   git apply $out/patch.diff 2>>$log || { echo "CONFIRM patch-does-not-apply" >> $log; exit 1; }
 fi
 echo "== demo with patch" >> $log
-sh $out/run_demo.sh >> $log 2>&1; w=$?
+bash $out/run_demo.sh >> $log 2>&1; w=$?
 echo "CONFIRM demo_with_patch_exit=$w" >> $log
 echo "== existing tests with patch" >> $log
 # the demonstration test must not count as an existing test: move it aside
@@ -20,7 +20,7 @@ timeout 3000 cargo test --offline --workspace --no-fail-fast >> $log 2>&1; t=$?
 echo "CONFIRM existing_tests_with_patch_exit=$t failed_lines=$(grep -c 'test result: FAILED' $log)" >> $log
 git apply -R $out/patch.diff
 echo "== demo without patch" >> $log
-sh $out/run_demo.sh >> $log 2>&1; n=$?
+bash $out/run_demo.sh >> $log 2>&1; n=$?
 echo "CONFIRM demo_without_patch_exit=$n" >> $log
 git apply $out/patch.diff
 grep CONFIRM $log
